@@ -214,7 +214,14 @@ type Parsed = Vec<Result<Rec, String>>;
 fn parse(data: &[u8], format: Format, cap: usize, sched: &Schedule, api: Api, limit: usize, interrupts: &[usize]) -> Result<Parsed, String> {
     guard(|| {
         let env = Env::new(data, sched.clone()).with_interrupts(interrupts);
-        let br = BufReader::with_capacity(cap, env);
+        parse_bufread(BufReader::with_capacity(cap, env), format, api, limit)
+    })
+}
+
+/// the three reading APIs over any buffered stream (shared by the layout grid and the
+/// injected-error cases)
+fn parse_bufread<B: std::io::BufRead>(br: B, format: Format, api: Api, limit: usize) -> Parsed {
+    {
         let mut out: Parsed = vec![];
         match (format, api) {
             (Format::Fastq, Api::Records) => {
@@ -301,7 +308,7 @@ fn parse(data: &[u8], format: Format, cap: usize, sched: &Schedule, api: Api, li
             }
         }
         out
-    })
+    }
 }
 
 fn fname(f: Format) -> &'static str {
@@ -685,6 +692,1031 @@ fn arbitrary_unit(tier: Tier, shard: usize, ctx: &mut Ctx) {
     }
 }
 
+// ================================================================== entry points, accessors,
+// conversions, file paths and injected I/O errors (appended units; everything above is unchanged)
+
+use std::cell::{Cell, RefCell};
+use std::io::{self, Read, Write};
+use std::path::{Path, PathBuf};
+
+fn rec_of_fasta(r: &fasta::Record) -> Rec {
+    Rec { id: r.id().to_string(), desc: r.desc().map(|s| s.to_string()), seq: String::from_utf8_lossy(r.seq()).to_string(), qual: String::new() }
+}
+
+fn rec_of_fastq(r: &fastq::Record) -> Rec {
+    Rec { id: r.id().to_string(), desc: r.desc().map(|s| s.to_string()), seq: String::from_utf8_lossy(r.seq()).to_string(), qual: String::from_utf8_lossy(r.qual()).to_string() }
+}
+
+fn collect_fasta<B: io::BufRead>(rd: fasta::Reader<B>, limit: usize) -> Parsed {
+    let mut out: Parsed = vec![];
+    for r in rd.records() {
+        out.push(r.map(|r| rec_of_fasta(&r)).map_err(|e| e.to_string()));
+        if out.len() > limit {
+            break;
+        }
+    }
+    out
+}
+
+fn collect_fastq<B: io::BufRead>(rd: fastq::Reader<B>, limit: usize) -> Parsed {
+    let mut out: Parsed = vec![];
+    for r in rd.records() {
+        out.push(r.map(|r| rec_of_fastq(&r)).map_err(|e| e.to_string()));
+        if out.len() > limit {
+            break;
+        }
+    }
+    out
+}
+
+fn collect_either<B: io::BufRead>(it: fastx::EitherRecords<B>, limit: usize) -> Parsed {
+    use fastx::Record as _;
+    let mut out: Parsed = vec![];
+    for r in it {
+        out.push(r.map(|r| Rec { id: r.id().to_string(), desc: r.desc().map(|s| s.to_string()), seq: String::from_utf8_lossy(r.seq()).to_string(), qual: r.qual().map(|q| String::from_utf8_lossy(q).to_string()).unwrap_or_default() }).map_err(|e| e.to_string()));
+        if out.len() > limit {
+            break;
+        }
+    }
+    out
+}
+
+/// the plain in-memory route every other constructor is compared with: `Reader::new(&bytes[..])`
+fn parse_new(data: &[u8], format: Format, limit: usize) -> Parsed {
+    match format {
+        Format::Fastq => collect_fastq(fastq::Reader::new(data), limit),
+        Format::Fasta => collect_fasta(fasta::Reader::new(data), limit),
+    }
+}
+
+/// write the list the way `write_bytes` does (write / write_record alternating), stop at the
+/// first error; one entry per record
+fn put_fastq<W: Write>(w: &mut fastq::Writer<W>, list: &[Rec]) -> Vec<io::Result<()>> {
+    let mut res = vec![];
+    for (i, r) in list.iter().enumerate() {
+        let x = if i % 2 == 0 {
+            w.write(&r.id, r.desc.as_deref(), r.seq.as_bytes(), r.qual.as_bytes())
+        } else {
+            w.write_record(&fastq::Record::with_attrs(&r.id, r.desc.as_deref(), r.seq.as_bytes(), r.qual.as_bytes()))
+        };
+        let stop = x.is_err();
+        res.push(x);
+        if stop {
+            break;
+        }
+    }
+    res
+}
+
+fn put_fasta<W: Write>(w: &mut fasta::Writer<W>, list: &[Rec]) -> Vec<io::Result<()>> {
+    let mut res = vec![];
+    for (i, r) in list.iter().enumerate() {
+        let x = if i % 2 == 0 {
+            w.write(&r.id, r.desc.as_deref(), r.seq.as_bytes())
+        } else {
+            w.write_record(&fasta::Record::with_attrs(&r.id, r.desc.as_deref(), r.seq.as_bytes()))
+        };
+        let stop = x.is_err();
+        res.push(x);
+        if stop {
+            break;
+        }
+    }
+    res
+}
+
+fn all_ok(v: &[io::Result<()>]) -> bool {
+    v.iter().all(|r| r.is_ok())
+}
+
+#[derive(Clone, Copy, Debug, PartialEq, Eq, Serialize, Deserialize)]
+enum WriterCtor {
+    /// `Writer::with_capacity(cap, sink)`
+    WithCapacity,
+    /// `Writer::from_bufwriter(BufWriter::with_capacity(cap, sink))`
+    FromBufWriter,
+}
+
+/// all records through a writer built by `ctor` over `sink`, then flush; the per-record results
+/// followed (only if every record was accepted) by the result of flush()
+fn drive_writer<W: Write>(sink: W, list: &[Rec], format: Format, wrap: Option<usize>, cap: usize, ctor: WriterCtor) -> Vec<io::Result<()>> {
+    match format {
+        Format::Fastq => {
+            let mut w = match ctor {
+                WriterCtor::WithCapacity => fastq::Writer::with_capacity(cap, sink),
+                WriterCtor::FromBufWriter => fastq::Writer::from_bufwriter(io::BufWriter::with_capacity(cap, sink)),
+            };
+            let mut res = put_fastq(&mut w, list);
+            if all_ok(&res) {
+                res.push(w.flush());
+            }
+            res
+        }
+        Format::Fasta => {
+            let mut w = match ctor {
+                WriterCtor::WithCapacity => fasta::Writer::with_capacity(cap, sink),
+                WriterCtor::FromBufWriter => fasta::Writer::from_bufwriter(io::BufWriter::with_capacity(cap, sink)),
+            };
+            // the constructors' own default (no wrapping) is part of what is compared
+            if wrap.is_some() {
+                w.set_linewrap(wrap);
+            }
+            let mut res = put_fasta(&mut w, list);
+            if all_ok(&res) {
+                res.push(w.flush());
+            }
+            res
+        }
+    }
+}
+
+// ------------------------------------------------------------------ constructors (fault free)
+
+const CTOR_CAPS: [usize; 5] = [1, 2, 3, 7, 64];
+
+/// `Reader::with_capacity` / `from_bufread` must parse exactly like `Reader::new`;
+/// `Writer::with_capacity` / `from_bufwriter` must emit the bytes of `Writer::new`
+fn ctor_check(list: &[Rec], format: Format, wrap: Option<usize>, cap: usize, cc: &mut CaseCtx) {
+    let f = fname(format);
+    let full = write_bytes(list, format, wrap, false);
+    cc.set_nontrivial(cap < full.len());
+    let limit = list.len() + 3;
+    let r = guard(|| {
+        let mut viol: Vec<(String, String)> = vec![];
+        for ctor in [WriterCtor::WithCapacity, WriterCtor::FromBufWriter] {
+            let mut out = vec![];
+            let res = drive_writer(&mut out, list, format, wrap, cap, ctor);
+            let name = if ctor == WriterCtor::WithCapacity { "with_capacity" } else { "from_bufwriter" };
+            if !all_ok(&res) {
+                viol.push((format!("C11/{}/writer-{}/error-on-memory-sink", f, name), format!("{:?}", res)));
+            } else if out != full {
+                viol.push((format!("C11/{}/writer-{}/bytes-differ-from-new", f, name), format!("capacity {}: {:?}, Writer::new: {:?}", cap, show(&out), show(&full))));
+            }
+        }
+        let mem = parse_new(&full, format, limit);
+        let mut obs = vec![mem.len()];
+        for sched in [Schedule::Uniform(usize::MAX), Schedule::Uniform(1)] {
+            let (a, b) = match format {
+                Format::Fastq => (
+                    collect_fastq(fastq::Reader::with_capacity(cap, Env::new(&full, sched.clone())), limit),
+                    collect_fastq(fastq::Reader::from_bufread(BufReader::with_capacity(cap, Env::new(&full, sched.clone()))), limit),
+                ),
+                Format::Fasta => (
+                    collect_fasta(fasta::Reader::with_capacity(cap, Env::new(&full, sched.clone())), limit),
+                    collect_fasta(fasta::Reader::from_bufread(BufReader::with_capacity(cap, Env::new(&full, sched.clone()))), limit),
+                ),
+            };
+            obs.push(a.len());
+            if a != mem {
+                viol.push((format!("C11/{}/reader-with_capacity/records-differ-from-new", f), format!("capacity {} answers {:?}: {:?}, Reader::new: {:?}", cap, sched, a, mem)));
+            }
+            if b != mem {
+                viol.push((format!("C11/{}/reader-from_bufread/records-differ-from-new", f), format!("capacity {} answers {:?}: {:?}, Reader::new: {:?}", cap, sched, b, mem)));
+            }
+        }
+        (obs, viol)
+    });
+    match r {
+        Err(msg) => {
+            let sym = if msg.contains("no termination") { "no-termination" } else { "panic" };
+            cc.violation(format!("C11/{}/constructors/{}", f, sym), msg)
+        }
+        Ok((obs, viol)) => {
+            cc.outcome(&obs);
+            for (k, d) in viol {
+                cc.violation(k, d);
+            }
+        }
+    }
+}
+
+// ------------------------------------------------------------------ Record API: check(), Display, SequenceRead, fastx conversions
+
+/// records outside the "valid record" class, for the Err branches of check()
+fn odd_records() -> Vec<Rec> {
+    let mut v = vec![];
+    for id in ["", "a", "\u{e9}"] {
+        for desc in [None, Some("d")] {
+            for seq in ["", "ACGT", "AC\u{e9}T", "\u{4e2d}"] {
+                for qual in ["", "IIII", "III", "IIIII", "II\u{e9}", "\u{e9}\u{e9}"] {
+                    v.push(Rec { id: id.to_string(), desc: desc.map(|d: &str| d.to_string()), seq: seq.to_string(), qual: qual.to_string() });
+                }
+            }
+        }
+    }
+    v
+}
+
+/// the documented rule of fastq::Record::check: Err iff the id is empty, or sequence or
+/// qualities contain a non-ASCII character, or their lengths differ
+fn fastq_check_model(r: &Rec) -> bool {
+    !r.id.is_empty() && r.seq.is_ascii() && r.qual.is_ascii() && r.seq.len() == r.qual.len()
+}
+
+/// fasta::Record::check: Err iff the id is empty or the sequence contains a non-ASCII character
+fn fasta_check_model(r: &Rec) -> bool {
+    !r.id.is_empty() && r.seq.is_ascii()
+}
+
+fn record_api_check(r: &Rec, cc: &mut CaseCtx) {
+    use bio_types::sequence::SequenceRead;
+    use fastx::Record as FxRecord;
+    cc.nontrivial();
+    let res = guard(|| {
+        let mut viol: Vec<(String, String)> = vec![];
+        let fa = fasta::Record::with_attrs(&r.id, r.desc.as_deref(), r.seq.as_bytes());
+        let fq = fastq::Record::with_attrs(&r.id, r.desc.as_deref(), r.seq.as_bytes(), r.qual.as_bytes());
+
+        // check()
+        let (ca, cq) = (fa.check().map_err(|e| e.to_string()), fq.check().map_err(|e| e.to_string()));
+        for (fmt, got, want) in [("fasta", &ca, fasta_check_model(r)), ("fastq", &cq, fastq_check_model(r))] {
+            if got.is_ok() && !want {
+                viol.push((format!("C11/{}/record-check/accepts-invalid-record", fmt), format!("check() = Ok for {:?}", r)));
+            }
+            if got.is_err() && want {
+                viol.push((format!("C11/{}/record-check/rejects-valid-record", fmt), format!("check() = {:?} for {:?}", got, r)));
+            }
+        }
+        let ea = fastx::EitherRecord::from(fa.clone());
+        let eq = fastx::EitherRecord::from(fq.clone());
+        if FxRecord::check(&fa).is_ok() != ca.is_ok() || ea.check().is_ok() != ca.is_ok() || FxRecord::check(&fq).is_ok() != cq.is_ok() || eq.check().is_ok() != cq.is_ok() {
+            viol.push(("C11/fastx/record-check/differs-from-inherent-check".to_string(), format!("{:?}", r)));
+        }
+
+        // Display = what the writer emits for this record
+        let mut wa = vec![];
+        {
+            let mut w = fasta::Writer::new(&mut wa);
+            w.write_record(&fa).unwrap();
+            w.flush().unwrap();
+        }
+        let mut wq = vec![];
+        {
+            let mut w = fastq::Writer::new(&mut wq);
+            w.write_record(&fq).unwrap();
+            w.flush().unwrap();
+        }
+        let (da, dq) = (fa.to_string(), format!("{}", fq));
+        if da.as_bytes() != &wa[..] {
+            viol.push(("C11/fasta/display/differs-from-writer".to_string(), format!("Display {:?}, Writer::write_record {:?}", da, show(&wa))));
+        }
+        if dq.as_bytes() != &wq[..] {
+            viol.push(("C11/fastq/display/differs-from-writer".to_string(), format!("Display {:?}, Writer::write_record {:?}", dq, show(&wq))));
+        }
+
+        // SequenceRead against the record's own accessors
+        if fq.name() != fq.id().as_bytes() {
+            viol.push(("C11/fastq/sequence-read/name-differs-from-id".to_string(), format!("{:?} vs {:?}", show(fq.name()), fq.id())));
+        }
+        if SequenceRead::len(&fq) != fq.seq().len() {
+            viol.push(("C11/fastq/sequence-read/len-differs-from-seq".to_string(), format!("{} vs {}", SequenceRead::len(&fq), fq.seq().len())));
+        }
+        for i in 0..fq.seq().len() {
+            if fq.base(i) != fq.seq()[i] {
+                viol.push(("C11/fastq/sequence-read/base-differs-from-seq".to_string(), format!("base({}) = {} for {:?}", i, fq.base(i), r)));
+            }
+        }
+        for i in 0..fq.qual().len() {
+            if fq.base_qual(i) != fq.qual()[i] {
+                viol.push(("C11/fastq/sequence-read/base_qual-differs-from-qual".to_string(), format!("base_qual({}) = {} for {:?}", i, fq.base_qual(i), r)));
+            }
+        }
+
+        // fastx: kind, accessors of the enum, conversions
+        let kinds = (FxRecord::kind(&fa), FxRecord::kind(&fq), ea.kind(), eq.kind());
+        if kinds != (fastx::Kind::FASTA, fastx::Kind::FASTQ, fastx::Kind::FASTA, fastx::Kind::FASTQ) {
+            viol.push(("C11/fastx/record-kind/wrong-kind".to_string(), format!("{:?}", kinds)));
+        }
+        let acc_ok = ea.id() == r.id && eq.id() == r.id && ea.desc() == r.desc.as_deref() && eq.desc() == r.desc.as_deref() && ea.seq() == r.seq.as_bytes() && eq.seq() == r.seq.as_bytes() && ea.qual().is_none() && eq.qual() == Some(fq.qual()) && FxRecord::qual(&fa).is_none() && FxRecord::qual(&fq) == Some(fq.qual());
+        if !acc_ok {
+            viol.push(("C11/fastx/either-record/accessors-differ".to_string(), format!("{:?} / {:?} built from {:?}", ea, eq, r)));
+        }
+        if ea.clone().to_fasta() != fa || eq.clone().to_fasta() != fa {
+            viol.push(("C11/fastx/to_fasta/fields-differ".to_string(), format!("{:?} / {:?}, expected {:?}", ea.clone().to_fasta(), eq.clone().to_fasta(), fa)));
+        }
+        let (ia, iq): (fasta::Record, fasta::Record) = (ea.clone().into(), eq.clone().into());
+        if ia != fa || iq != fa {
+            viol.push(("C11/fastx/into-fasta/fields-differ".to_string(), format!("{:?} / {:?}, expected {:?}", ia, iq, fa)));
+        }
+        for dflt in [b'I', b'!', b'~'] {
+            if eq.clone().to_fastq(dflt) != fq {
+                viol.push(("C11/fastx/to_fastq/fastq-record-changed".to_string(), format!("{:?}, expected {:?}", eq.clone().to_fastq(dflt), fq)));
+            }
+            let want = fastq::Record::with_attrs(&r.id, r.desc.as_deref(), r.seq.as_bytes(), &vec![dflt; r.seq.len()]);
+            let got = ea.clone().to_fastq(dflt);
+            if got != want {
+                let sym = if got.id() == want.id() && got.desc() == want.desc() && got.seq() == want.seq() { "default-qual-wrong" } else { "fields-differ" };
+                viol.push((format!("C11/fastx/to_fastq/{}", sym), format!("{:?}, expected {:?}", got, want)));
+            }
+        }
+        ((ca, cq, da.len(), dq.len()), viol)
+    });
+    match res {
+        Err(msg) => cc.violation("C11/record-api/panic", msg),
+        Ok((obs, viol)) => {
+            cc.outcome(&obs);
+            for (k, d) in viol {
+                cc.violation(k, d);
+            }
+        }
+    }
+}
+
+/// EitherRecords / get_kind* on EMPTY input: kind() reports an error ("Data is empty"), the
+/// iterator ends without a record, get_kind* report the failed read as an error
+fn fastx_empty_check(cap: usize, kind_first: bool, cc: &mut CaseCtx) {
+    cc.nontrivial();
+    let res = guard(|| {
+        let mut viol: Vec<(String, String)> = vec![];
+        let mut it = fastx::EitherRecords::new(BufReader::with_capacity(cap, Env::new(b"", Schedule::Uniform(usize::MAX))));
+        let mut kinds = vec![];
+        if kind_first {
+            kinds.push(it.kind().map(|k| k.to_string()).map_err(|e| format!("{:?}", e.kind())));
+        }
+        let (mut items, mut oks) = (0usize, 0usize);
+        for r in it.by_ref() {
+            items += 1;
+            if r.is_ok() {
+                oks += 1;
+            }
+            if items > 3 {
+                break;
+            }
+        }
+        kinds.push(it.kind().map(|k| k.to_string()).map_err(|e| format!("{:?}", e.kind())));
+        if kinds.iter().any(|k| k.is_ok()) {
+            viol.push(("C11/fastx/empty-input/kind-not-an-error".to_string(), format!("{:?}", kinds)));
+        }
+        if oks > 0 {
+            viol.push(("C11/fastx/empty-input/record-from-nothing".to_string(), format!("{} records", oks)));
+        }
+        if items > 3 {
+            viol.push(("C11/fastx/empty-input/iterator-does-not-terminate".to_string(), String::new()));
+        }
+        let g1 = fastx::get_kind(Env::new(b"", Schedule::Uniform(usize::MAX))).map(|(_, k)| k.to_string()).map_err(|e| format!("{:?}", e.kind()));
+        let g2 = match fastx::get_kind_detailed(Env::new(b"", Schedule::Uniform(usize::MAX))) {
+            Ok((_, k)) => Ok(format!("{:?}", k.map_err(|e| e.kind()))),
+            Err((_, e)) => Err(format!("{:?}", e.kind())),
+        };
+        let g3 = fastx::get_kind_seek(&mut Env::new(b"", Schedule::Uniform(usize::MAX))).map(|k| k.to_string()).map_err(|e| format!("{:?}", e.kind()));
+        if g1.is_ok() || g2.is_ok() || g3.is_ok() {
+            viol.push(("C11/fastx/empty-input/get_kind-not-an-error".to_string(), format!("get_kind {:?} get_kind_detailed {:?} get_kind_seek {:?}", g1, g2, g3)));
+        }
+        ((kinds, items, g1, g2, g3), viol)
+    });
+    match res {
+        Err(msg) => {
+            let sym = if msg.contains("no termination") { "no-termination" } else { "panic" };
+            cc.violation(format!("C11/fastx/empty-input/{}", sym), msg)
+        }
+        Ok((obs, viol)) => {
+            cc.outcome(&obs);
+            for (k, d) in viol {
+                cc.violation(k, d);
+            }
+        }
+    }
+}
+
+/// Display of Kind names the format; the `From` conversions into fastx::Error / fastq::Error keep
+/// the error they wrap
+fn fastx_misc_check(cc: &mut CaseCtx) {
+    cc.nontrivial();
+    let res = guard(|| {
+        let mut viol: Vec<(String, String)> = vec![];
+        let (a, q) = (format!("{}", fastx::Kind::FASTA), fastx::Kind::FASTQ.to_string());
+        if !a.eq_ignore_ascii_case("FASTA") || !q.eq_ignore_ascii_case("FASTQ") {
+            viol.push(("C11/fastx/kind-display/wrong-name".to_string(), format!("{:?} {:?}", a, q)));
+        }
+        let e = fastx::Error::from(io::Error::new(io::ErrorKind::Other, "boom"));
+        let ok1 = matches!(&e, fastx::Error::IO(x) if x.kind() == io::ErrorKind::Other && x.to_string() == "boom");
+        let e = fastx::Error::from(fastq::Error::MissingAt);
+        let ok2 = matches!(&e, fastx::Error::FASTQ(fastq::Error::MissingAt));
+        let e = fastx::Error::from(fastq::Error::IncompleteRecord);
+        let ok3 = matches!(&e, fastx::Error::FASTQ(fastq::Error::IncompleteRecord));
+        let e = fastq::Error::from(io::Error::new(io::ErrorKind::Other, "boom"));
+        let ok4 = matches!(&e, fastq::Error::ReadError(x) if x.kind() == io::ErrorKind::Other && x.to_string() == "boom");
+        if !(ok1 && ok2 && ok3 && ok4) {
+            viol.push(("C11/fastx/error-conversion/wrapped-error-changed".to_string(), format!("io->fastx {} MissingAt->fastx {} IncompleteRecord->fastx {} io->fastq {}", ok1, ok2, ok3, ok4)));
+        }
+        ((a, q), viol)
+    });
+    match res {
+        Err(msg) => cc.violation("C11/fastx/misc/panic", msg),
+        Ok((obs, viol)) => {
+            cc.outcome(&obs);
+            for (k, d) in viol {
+                cc.violation(k, d);
+            }
+        }
+    }
+}
+
+// ------------------------------------------------------------------ file-path constructors
+
+/// scratch directory of one unit; removed when dropped
+struct TempDir(PathBuf);
+
+impl TempDir {
+    fn new(tag: &str) -> TempDir {
+        let p = std::env::temp_dir().join(format!("bmc-{}-{}", std::process::id(), tag));
+        let _ = std::fs::remove_dir_all(&p);
+        if let Err(e) = std::fs::create_dir_all(&p) {
+            // no verdict is possible without a scratch directory
+            panic!("cannot create scratch directory {:?}: {}", p, e);
+        }
+        TempDir(p)
+    }
+    fn path(&self) -> &Path {
+        &self.0
+    }
+}
+
+impl Drop for TempDir {
+    fn drop(&mut self) {
+        let _ = std::fs::remove_dir_all(&self.0);
+    }
+}
+
+/// Writer::to_file / to_file_with_capacity must leave the bytes of the in-memory writer in the
+/// file; Reader::from_file / from_file_with_capacity / EitherRecords::from_file / get_kind_file
+/// must see what the in-memory route sees
+fn file_check(dir: &Path, list: &[Rec], format: Format, wrap: Option<usize>, cc: &mut CaseCtx) {
+    cc.nontrivial();
+    let f = fname(format);
+    let full = write_bytes(list, format, wrap, false);
+    let limit = list.len() + 3;
+    let path = dir.join(format!("records.{}", f));
+    let res = guard(|| {
+        let mut viol: Vec<(String, String)> = vec![];
+        // writers; capacity None = to_file.  The first call creates the file, the later ones find
+        // the previous output there, which must be replaced, not extended
+        let _ = std::fs::remove_file(&path);
+        for cap in [Some(1usize), None, Some(7), Some(64)] {
+            let name = if cap.is_none() { "to_file" } else { "to_file_with_capacity" };
+            let written: Result<bool, String> = match format {
+                Format::Fastq => match cap {
+                    None => fastq::Writer::to_file(&path),
+                    Some(c) => fastq::Writer::to_file_with_capacity(c, &path),
+                }
+                .map(|mut w| {
+                    let mut r = put_fastq(&mut w, list);
+                    r.push(w.flush());
+                    all_ok(&r)
+                })
+                .map_err(|e| e.to_string()),
+                Format::Fasta => match cap {
+                    None => fasta::Writer::to_file(&path),
+                    Some(c) => fasta::Writer::to_file_with_capacity(c, &path),
+                }
+                .map(|mut w| {
+                    if wrap.is_some() {
+                        w.set_linewrap(wrap);
+                    }
+                    let mut r = put_fasta(&mut w, list);
+                    r.push(w.flush());
+                    all_ok(&r)
+                })
+                .map_err(|e| e.to_string()),
+            };
+            match written {
+                Err(e) => viol.push((format!("C11/{}/{}/error-on-valid-path", f, name), e)),
+                Ok(false) => viol.push((format!("C11/{}/{}/write-error", f, name), String::new())),
+                Ok(true) => {
+                    let got = std::fs::read(&path).unwrap_or_default();
+                    if got != full {
+                        viol.push((format!("C11/{}/{}/bytes-differ-from-memory-writer", f, name), format!("file {:?}, memory {:?}", show(&got), show(&full))));
+                    }
+                }
+            }
+        }
+        // readers on a file holding exactly the in-memory bytes
+        std::fs::write(&path, &full).expect("scratch file is writable");
+        let mem = parse_new(&full, format, limit);
+        let mut routes: Vec<(&'static str, Result<Parsed, String>)> = vec![];
+        match format {
+            Format::Fastq => routes.push(("from_file", fastq::Reader::from_file(&path).map(|r| collect_fastq(r, limit)).map_err(|e| e.to_string()))),
+            Format::Fasta => {
+                routes.push(("from_file", fasta::Reader::from_file(&path).map(|r| collect_fasta(r, limit)).map_err(|e| e.to_string())));
+                for c in CTOR_CAPS {
+                    routes.push(("from_file_with_capacity", fasta::Reader::from_file_with_capacity(c, &path).map(|r| collect_fasta(r, limit)).map_err(|e| e.to_string())));
+                }
+            }
+        }
+        for (name, got) in routes {
+            match got {
+                Err(e) => viol.push((format!("C11/{}/{}/error-on-existing-file", f, name), e)),
+                Ok(got) => {
+                    if got != mem {
+                        viol.push((format!("C11/{}/{}/records-differ-from-memory-reader", f, name), format!("{:?}, Reader::new: {:?}", got, mem)));
+                    }
+                }
+            }
+        }
+        // the sniffer through a path
+        let want_kind = if format == Format::Fastq { fastx::Kind::FASTQ } else { fastx::Kind::FASTA };
+        match fastx::get_kind_file(&path) {
+            Ok(k) if k == want_kind => {}
+            other => viol.push((format!("C11/{}/get_kind_file/wrong-kind", f), format!("{:?}", other.map_err(|e| e.to_string())))),
+        }
+        let mem_either = collect_either(fastx::EitherRecords::new(BufReader::new(&full[..])), limit);
+        match fastx::EitherRecords::from_file(&path) {
+            Err(e) => viol.push((format!("C11/{}/either-from_file/error-on-existing-file", f), e.to_string())),
+            Ok(mut it) => {
+                match it.kind() {
+                    Ok(k) if k == want_kind => {}
+                    other => viol.push((format!("C11/{}/either-from_file/wrong-kind", f), format!("{:?}", other.map_err(|e| e.to_string())))),
+                }
+                let got = collect_either(it, limit);
+                if got != mem_either {
+                    viol.push((format!("C11/{}/either-from_file/records-differ-from-memory-reader", f), format!("{:?}, EitherRecords::new: {:?}", got, mem_either)));
+                }
+            }
+        }
+        let _ = std::fs::remove_file(&path);
+        (mem.len(), viol)
+    });
+    match res {
+        Err(msg) => cc.violation(format!("C11/{}/file-constructors/panic", f), msg),
+        Ok((obs, viol)) => {
+            cc.outcome(&obs);
+            for (k, d) in viol {
+                cc.violation(k, d);
+            }
+        }
+    }
+}
+
+/// a path that does not exist gives Err from every path constructor; an empty file behaves like
+/// empty input
+fn file_missing_check(dir: &Path, cc: &mut CaseCtx) {
+    cc.nontrivial();
+    let res = guard(|| {
+        let mut viol: Vec<(String, String)> = vec![];
+        let missing = dir.join("does-not-exist.fx");
+        let _ = std::fs::remove_file(&missing);
+        let no_dir = dir.join("no-such-directory").join("out.fx");
+        let oks: Vec<(&'static str, bool)> = vec![
+            ("fasta/from_file", fasta::Reader::from_file(&missing).is_ok()),
+            ("fasta/from_file_with_capacity", fasta::Reader::from_file_with_capacity(7, &missing).is_ok()),
+            ("fastq/from_file", fastq::Reader::from_file(&missing).is_ok()),
+            ("fastx/either-from_file", fastx::EitherRecords::from_file(&missing).is_ok()),
+            ("fastx/get_kind_file", fastx::get_kind_file(&missing).is_ok()),
+            ("fasta/to_file", fasta::Writer::to_file(&no_dir).is_ok()),
+            ("fasta/to_file_with_capacity", fasta::Writer::to_file_with_capacity(7, &no_dir).is_ok()),
+            ("fastq/to_file", fastq::Writer::to_file(&no_dir).is_ok()),
+            ("fastq/to_file_with_capacity", fastq::Writer::to_file_with_capacity(7, &no_dir).is_ok()),
+        ];
+        for (name, ok) in &oks {
+            if *ok {
+                viol.push((format!("C11/{}/ok-on-missing-path", name), String::new()));
+            }
+        }
+        let empty = dir.join("empty.fx");
+        std::fs::write(&empty, b"").expect("scratch file is writable");
+        if fastx::get_kind_file(&empty).is_ok() {
+            viol.push(("C11/fastx/empty-input/get_kind-not-an-error".to_string(), "get_kind_file on an empty file".to_string()));
+        }
+        match fastx::EitherRecords::from_file(&empty) {
+            Err(e) => viol.push(("C11/fastx/either-from_file/error-on-existing-file".to_string(), e.to_string())),
+            Ok(mut it) => {
+                if it.kind().is_ok() {
+                    viol.push(("C11/fastx/empty-input/kind-not-an-error".to_string(), "EitherRecords::from_file on an empty file".to_string()));
+                }
+                if it.take(4).any(|r| r.is_ok()) {
+                    viol.push(("C11/fastx/empty-input/record-from-nothing".to_string(), "EitherRecords::from_file on an empty file".to_string()));
+                }
+            }
+        }
+        let n = [fasta::Reader::from_file(&empty).map(|r| r.records().take(4).count()).unwrap_or(9), fastq::Reader::from_file(&empty).map(|r| r.records().take(4).count()).unwrap_or(9)];
+        if n != [0, 0] {
+            viol.push(("C11/empty-file/from_file/records-from-nothing".to_string(), format!("{:?}", n)));
+        }
+        let _ = std::fs::remove_file(&empty);
+        (oks, viol)
+    });
+    match res {
+        Err(msg) => cc.violation("C11/file-constructors/missing-path/panic", msg),
+        Ok((obs, viol)) => {
+            cc.outcome(&obs);
+            for (k, d) in viol {
+                cc.violation(k, d);
+            }
+        }
+    }
+}
+
+// ------------------------------------------------------------------ injected write errors
+
+#[derive(Default)]
+struct SinkState {
+    data: Vec<u8>,
+    calls: usize,
+    triggered: bool,
+}
+
+/// a sink whose `fail_at`-th write() call (0-based) fails with ErrorKind::Other (and every later
+/// one too when `sticky`); every other call accepts at most `chunk` bytes
+struct FailSink<'a> {
+    st: &'a RefCell<SinkState>,
+    fail_at: usize,
+    sticky: bool,
+    chunk: usize,
+    max_calls: usize,
+}
+
+impl<'a> Write for FailSink<'a> {
+    fn write(&mut self, buf: &[u8]) -> io::Result<usize> {
+        let mut st = self.st.borrow_mut();
+        let c = st.calls;
+        st.calls += 1;
+        if c >= self.max_calls {
+            drop(st);
+            panic!("sink: writer issued more than {} write calls (no termination)", self.max_calls);
+        }
+        if c == self.fail_at || (self.sticky && c > self.fail_at) {
+            st.triggered = true;
+            return Err(io::Error::new(io::ErrorKind::Other, "write fault (injected)"));
+        }
+        let n = buf.len().min(self.chunk.max(1));
+        st.data.extend_from_slice(&buf[..n]);
+        Ok(n)
+    }
+    fn flush(&mut self) -> io::Result<()> {
+        Ok(())
+    }
+}
+
+#[derive(Clone, Debug, Serialize, Deserialize)]
+struct WriteFault {
+    format: Format,
+    wrap: Option<usize>,
+    cap: usize,
+    ctor: WriterCtor,
+    /// bytes the sink accepts per write() call
+    chunk: usize,
+    /// index of the failing write() call; = number of calls of the fault-free run: no fault
+    fail_at: usize,
+    sticky: bool,
+}
+
+struct WriteRun {
+    results: Vec<bool>,
+    data: Vec<u8>,
+    calls: usize,
+    triggered: bool,
+}
+
+fn run_write_fault(list: &[Rec], wf: &WriteFault, expect_len: usize) -> Result<WriteRun, String> {
+    guard(|| {
+        let st = RefCell::new(SinkState::default());
+        let results: Vec<bool> = {
+            let sink = FailSink { st: &st, fail_at: wf.fail_at, sticky: wf.sticky, chunk: wf.chunk, max_calls: 64 + 4 * expect_len };
+            // the writer (and its BufWriter, which flushes once more when dropped) dies here
+            drive_writer(sink, list, wf.format, wf.wrap, wf.cap, wf.ctor).iter().map(|r| r.is_ok()).collect()
+        };
+        let st = st.into_inner();
+        WriteRun { results, data: st.data, calls: st.calls, triggered: st.triggered }
+    })
+}
+
+/// number of sink write() calls of the fault-free run (enumeration bound for `fail_at`)
+fn write_calls(list: &[Rec], wf: &WriteFault) -> usize {
+    let mut w = wf.clone();
+    w.fail_at = usize::MAX;
+    run_write_fault(list, &w, 4096).map(|r| r.calls).unwrap_or(0)
+}
+
+fn write_fault_check(list: &[Rec], wf: &WriteFault, cc: &mut CaseCtx) {
+    let f = fname(wf.format);
+    let full = write_bytes(list, wf.format, wf.wrap, false);
+    match run_write_fault(list, wf, full.len()) {
+        Err(msg) => {
+            let sym = if msg.contains("no termination") { "no-termination" } else { "panic" };
+            cc.violation(format!("C11/{}/write-fault/{}", f, sym), msg)
+        }
+        Ok(run) => {
+            cc.set_nontrivial(run.triggered);
+            cc.outcome(&(run.results.clone(), run.data.len(), run.triggered));
+            let everything_ok = run.results.iter().all(|&b| b);
+            if !full.starts_with(&run.data) {
+                cc.violation(format!("C11/{}/write-fault/accepted-bytes-not-a-prefix", f), format!("sink holds {:?}, fault-free output {:?}", show(&run.data), show(&full)));
+            } else if everything_ok && run.data != full {
+                cc.violation(
+                    format!("C11/{}/write-fault/ok-although-bytes-missing", f),
+                    format!("every write and flush() returned Ok but the sink accepted only {:?} of {:?}", show(&run.data), show(&full)),
+                );
+            }
+            if !everything_ok && !run.triggered {
+                cc.violation(format!("C11/{}/write-fault/error-without-fault", f), format!("results {:?}", run.results));
+            }
+        }
+    }
+}
+
+// ------------------------------------------------------------------ injected read errors
+
+/// `Read` over an `Env` whose `fail_at`-th read() call (0-based) fails with ErrorKind::Other (and
+/// every later one too when `sticky`); a failing call consumes nothing
+struct FaultyRead<'a> {
+    env: Env<'a>,
+    fail_at: usize,
+    sticky: bool,
+    calls: &'a Cell<usize>,
+    triggered: &'a Cell<bool>,
+    max_calls: usize,
+}
+
+impl<'a> Read for FaultyRead<'a> {
+    fn read(&mut self, buf: &mut [u8]) -> io::Result<usize> {
+        let c = self.calls.get();
+        self.calls.set(c + 1);
+        if c >= self.max_calls {
+            panic!("environment: reader issued more than {} read calls (no termination)", self.max_calls);
+        }
+        if c == self.fail_at || (self.sticky && c > self.fail_at) {
+            self.triggered.set(true);
+            return Err(io::Error::new(io::ErrorKind::Other, "read fault (injected)"));
+        }
+        self.env.read(buf)
+    }
+}
+
+#[derive(Clone, Debug, Serialize, Deserialize)]
+struct ReadFault {
+    format: Format,
+    wrap: Option<usize>,
+    cap: usize,
+    sched: Schedule,
+    api: Api,
+    /// index of the failing read() call; = number of calls of the fault-free run: no fault
+    fail_at: usize,
+    sticky: bool,
+}
+
+/// (items, read() calls, fault reached)
+fn run_read_fault(data: &[u8], rf: &ReadFault, limit: usize) -> Result<(Parsed, usize, bool), String> {
+    guard(|| {
+        let calls = Cell::new(0usize);
+        let triggered = Cell::new(false);
+        let src = FaultyRead { env: Env::new(data, rf.sched.clone()), fail_at: rf.fail_at, sticky: rf.sticky, calls: &calls, triggered: &triggered, max_calls: 128 + 32 * data.len() };
+        let got = parse_bufread(BufReader::with_capacity(rf.cap, src), rf.format, rf.api, limit);
+        (got, calls.get(), triggered.get())
+    })
+}
+
+fn read_calls(list: &[Rec], rf: &ReadFault) -> usize {
+    let mut r = rf.clone();
+    r.fail_at = usize::MAX;
+    guard(|| write_bytes(list, rf.format, rf.wrap, false)).ok().and_then(|d| run_read_fault(&d, &r, list.len() + 3).ok()).map(|x| x.1).unwrap_or(0)
+}
+
+fn read_fault_check(list: &[Rec], rf: &ReadFault, cc: &mut CaseCtx) {
+    let f = fname(rf.format);
+    let api = match rf.api {
+        Api::Records => "records",
+        Api::ReadInto => "read",
+        Api::Either => "sniffer",
+    };
+    let data = write_bytes(list, rf.format, rf.wrap, false);
+    let limit = list.len() + 3;
+    let mut clean = rf.clone();
+    clean.fail_at = usize::MAX;
+    let (want, got) = (run_read_fault(&data, &clean, limit), run_read_fault(&data, rf, limit));
+    match (want, got) {
+        (Err(msg), _) | (_, Err(msg)) => {
+            let sym = if msg.contains("no termination") { "no-termination" } else { "panic" };
+            cc.violation(format!("C11/{}/read-fault/{}/{}", f, api, sym), msg)
+        }
+        (Ok((want, _, _)), Ok((got, _, triggered))) => {
+            cc.set_nontrivial(triggered);
+            let first_err = got.iter().position(|r| r.is_err());
+            cc.outcome(&(got.len(), first_err, triggered));
+            if want.iter().any(|r| r.is_err()) {
+                // the fault-free run itself fails: reported by the round-trip cases
+                return;
+            }
+            if !triggered {
+                if got != want {
+                    cc.violation(format!("C11/{}/read-fault/{}/differs-without-fault", f, api), format!("{:?}, expected {:?}", got, want));
+                }
+                return;
+            }
+            match first_err {
+                None => cc.violation(
+                    format!("C11/{}/read-fault/{}/error-swallowed", f, api),
+                    format!("read() call #{} failed with ErrorKind::Other, the reader reported no error: {:?}", rf.fail_at, got),
+                ),
+                Some(j) => {
+                    if j > want.len() || got[..j] != want[..j] {
+                        cc.violation(
+                            format!("C11/{}/read-fault/{}/wrong-record-before-error", f, api),
+                            format!("read() call #{} failed; items {:?}; fault-free records {:?}", rf.fail_at, got, want),
+                        );
+                    }
+                }
+            }
+        }
+    }
+}
+
+// ------------------------------------------------------------------ enumeration of the appended units
+
+const CTOR_SHARDS: usize = 4;
+const WFAULT_SHARDS: usize = 4;
+const RFAULT_SHARDS: usize = 4;
+/// ctor-*, record-api, files, write-fault-*, read-fault-*
+const EXT_UNITS: usize = CTOR_SHARDS + 2 + WFAULT_SHARDS + RFAULT_SHARDS;
+
+fn ctor_unit(tier: Tier, shard: usize, ctx: &mut Ctx) {
+    for (li, list) in lists(tier).iter().enumerate() {
+        if li % CTOR_SHARDS != shard {
+            continue;
+        }
+        for (format, wrap) in [(Format::Fastq, None), (Format::Fasta, None), (Format::Fasta, Some(3))] {
+            for cap in CTOR_CAPS {
+                ctx.case(|| json!({"kind": "ctor", "records": list, "format": format, "wrap": wrap, "cap": cap}), |cc| ctor_check(list, format, wrap, cap, cc));
+            }
+        }
+        if ctx.res.capped {
+            return;
+        }
+    }
+}
+
+fn record_api_unit(ctx: &mut Ctx) {
+    let mut recs = record_alphabet();
+    recs.extend(odd_records());
+    for r in &recs {
+        ctx.case(|| json!({"kind": "record-api", "record": r}), |cc| record_api_check(r, cc));
+    }
+    for cap in [1usize, 2, 8192] {
+        for kind_first in [true, false] {
+            ctx.case(|| json!({"kind": "fastx-empty", "cap": cap, "kind_first": kind_first}), |cc| fastx_empty_check(cap, kind_first, cc));
+        }
+    }
+    ctx.case(|| json!({"kind": "fastx-misc"}), |cc| fastx_misc_check(cc));
+}
+
+/// a spread of singles over the whole alphabet (stride coprime to its radices) plus pairs and a triple
+fn few_lists(single_stride: usize, pair_stride: usize) -> Vec<Vec<Rec>> {
+    let recs = record_alphabet();
+    let n = recs.len();
+    let mut v: Vec<Vec<Rec>> = recs.iter().step_by(single_stride).map(|r| vec![r.clone()]).collect();
+    for i in (0..n).step_by(pair_stride) {
+        v.push(vec![recs[i].clone(), recs[(i * 7 + 13) % n].clone()]);
+    }
+    v.push(vec![recs[11].clone(), recs[(11 * 7 + 13) % n].clone(), recs[(11 * 3 + 500) % n].clone()]);
+    v
+}
+
+fn file_unit(tier: Tier, ctx: &mut Ctx) {
+    let dir = TempDir::new("C11-files");
+    for list in few_lists(tier.pick(77, 13), tier.pick(601, 211)).iter() {
+        for (format, wrap) in [(Format::Fastq, None), (Format::Fasta, None), (Format::Fasta, Some(3))] {
+            ctx.case(|| json!({"kind": "file", "records": list, "format": format, "wrap": wrap}), |cc| file_check(dir.path(), list, format, wrap, cc));
+        }
+    }
+    ctx.case(|| json!({"kind": "file-missing"}), |cc| file_missing_check(dir.path(), cc));
+}
+
+fn fault_lists(tier: Tier) -> Vec<Vec<Rec>> {
+    few_lists(tier.pick(23, 7), tier.pick(229, 97))
+}
+
+fn wfault_unit(tier: Tier, shard: usize, ctx: &mut Ctx) {
+    for (li, list) in fault_lists(tier).iter().enumerate() {
+        if li % WFAULT_SHARDS != shard {
+            continue;
+        }
+        for (format, wrap) in [(Format::Fastq, None), (Format::Fasta, None), (Format::Fasta, Some(3)), (Format::Fasta, Some(1))] {
+            for cap in CTOR_CAPS {
+                for ctor in [WriterCtor::FromBufWriter, WriterCtor::WithCapacity] {
+                    for chunk in [usize::MAX, 1] {
+                        let mut wf = WriteFault { format, wrap, cap, ctor, chunk, fail_at: 0, sticky: false };
+                        let n = write_calls(list, &wf);
+                        for fail_at in 0..=n {
+                            for sticky in [false, true] {
+                                if fail_at == n && sticky {
+                                    continue; // no fault either way: the same case
+                                }
+                                wf.fail_at = fail_at;
+                                wf.sticky = sticky;
+                                ctx.case(|| json!({"kind": "write-fault", "records": list, "fault": wf}), |cc| write_fault_check(list, &wf, cc));
+                            }
+                        }
+                    }
+                }
+            }
+        }
+        if ctx.res.capped {
+            return;
+        }
+    }
+}
+
+fn rfault_unit(tier: Tier, shard: usize, ctx: &mut Ctx) {
+    for (li, list) in fault_lists(tier).iter().enumerate() {
+        if li % RFAULT_SHARDS != shard {
+            continue;
+        }
+        for (format, wrap) in [(Format::Fastq, None), (Format::Fasta, None), (Format::Fasta, Some(3))] {
+            for cap in [1usize, 3, 7, 8192] {
+                for sched in [Schedule::Uniform(1), Schedule::Uniform(3), Schedule::Uniform(usize::MAX)] {
+                    for api in [Api::Records, Api::ReadInto, Api::Either] {
+                        let mut rf = ReadFault { format, wrap, cap, sched: sched.clone(), api, fail_at: 0, sticky: false };
+                        let n = read_calls(list, &rf);
+                        for fail_at in 0..=n {
+                            for sticky in [false, true] {
+                                if fail_at == n && sticky {
+                                    continue;
+                                }
+                                rf.fail_at = fail_at;
+                                rf.sticky = sticky;
+                                ctx.case(|| json!({"kind": "read-fault", "records": list, "fault": rf}), |cc| read_fault_check(list, &rf, cc));
+                            }
+                        }
+                    }
+                }
+            }
+        }
+        if ctx.res.capped {
+            return;
+        }
+    }
+}
+
+fn ext_unit_names() -> Vec<String> {
+    let mut v: Vec<String> = (0..CTOR_SHARDS).map(|i| format!("ctor-{}", i)).collect();
+    v.push("record-api".to_string());
+    v.push("files".to_string());
+    v.extend((0..WFAULT_SHARDS).map(|i| format!("write-fault-{}", i)));
+    v.extend((0..RFAULT_SHARDS).map(|i| format!("read-fault-{}", i)));
+    debug_assert_eq!(v.len(), EXT_UNITS);
+    v
+}
+
+fn run_ext_unit(tier: Tier, u: usize, ctx: &mut Ctx) {
+    if u < CTOR_SHARDS {
+        ctor_unit(tier, u, ctx);
+    } else if u == CTOR_SHARDS {
+        record_api_unit(ctx);
+    } else if u == CTOR_SHARDS + 1 {
+        file_unit(tier, ctx);
+    } else if u < CTOR_SHARDS + 2 + WFAULT_SHARDS {
+        wfault_unit(tier, u - CTOR_SHARDS - 2, ctx);
+    } else {
+        rfault_unit(tier, u - CTOR_SHARDS - 2 - WFAULT_SHARDS, ctx);
+    }
+}
+
+/// replay of the appended case kinds; false if `case` is not one of them
+fn replay_ext(case: &Value, ctx: &mut Ctx) -> bool {
+    let list = || -> Vec<Rec> { serde_json::from_value(case["records"].clone()).unwrap_or_default() };
+    match case["kind"].as_str().unwrap_or("") {
+        "ctor" => {
+            let list = list();
+            let format: Format = serde_json::from_value(case["format"].clone()).unwrap();
+            let wrap: Option<usize> = serde_json::from_value(case["wrap"].clone()).unwrap();
+            let cap = case["cap"].as_u64().unwrap() as usize;
+            ctx.case(|| case.clone(), |cc| ctor_check(&list, format, wrap, cap, cc));
+        }
+        "record-api" => {
+            let r: Rec = serde_json::from_value(case["record"].clone()).unwrap();
+            ctx.case(|| case.clone(), |cc| record_api_check(&r, cc));
+        }
+        "fastx-empty" => {
+            let cap = case["cap"].as_u64().unwrap() as usize;
+            let kind_first = case["kind_first"].as_bool().unwrap();
+            ctx.case(|| case.clone(), |cc| fastx_empty_check(cap, kind_first, cc));
+        }
+        "fastx-misc" => ctx.case(|| case.clone(), |cc| fastx_misc_check(cc)),
+        "file" => {
+            let list = list();
+            let format: Format = serde_json::from_value(case["format"].clone()).unwrap();
+            let wrap: Option<usize> = serde_json::from_value(case["wrap"].clone()).unwrap();
+            let dir = TempDir::new("C11-replay");
+            ctx.case(|| case.clone(), |cc| file_check(dir.path(), &list, format, wrap, cc));
+        }
+        "file-missing" => {
+            let dir = TempDir::new("C11-replay");
+            ctx.case(|| case.clone(), |cc| file_missing_check(dir.path(), cc));
+        }
+        "write-fault" => {
+            let list = list();
+            let wf: WriteFault = serde_json::from_value(case["fault"].clone()).unwrap();
+            ctx.case(|| case.clone(), |cc| write_fault_check(&list, &wf, cc));
+        }
+        "read-fault" => {
+            let list = list();
+            let rf: ReadFault = serde_json::from_value(case["fault"].clone()).unwrap();
+            ctx.case(|| case.clone(), |cc| read_fault_check(&list, &rf, cc));
+        }
+        _ => return false,
+    }
+    true
+}
+
 impl Prop for C11Prop {
     fn id(&self) -> &'static str {
         "C11"
@@ -693,13 +1725,16 @@ impl Prop for C11Prop {
         "fault_enumeration"
     }
     fn rule(&self) -> &'static str {
-        "Record lists (all single records of a 6x10x6x5 alphabet (ids and descriptions include non-ASCII text and multi-byte white space), strided pairs, selected triples) are written by the real writers and read back under every layout of a grid: FASTA line wrap x {as written, CRLF, re-wrapped} x BufReader capacity {1,2,3,7,8192} x read() answer schedule (uniform <=1,<=2,<=3, cycles, unbounded; for single records every schedule with one short leading answer and every schedule with two) x API (records(), read() into a reused Record, EitherRecords); the sniffer additionally against the plain parser on streams whose first reads fail with ErrorKind::Interrupted, and the seekable sniffer on streams positioned behind a preamble; every truncation offset of the written bytes; every string of up to 5/6 tokens over {> @ + LF CR A space 0xFF U+00A0 U+2003} (the last two as multi-byte UTF-8). Each (list, layout) / (list, cut) / byte string is one case. Non-trivial: a read() answer or the buffer capacity splits a line, or the layout is CRLF/re-wrapped, or a non-default API; cuts: the cut falls inside a line; arbitrary: contains a line break and a record marker."
+        "Record lists (all single records of a 6x10x6x5 alphabet (ids and descriptions include non-ASCII text and multi-byte white space), strided pairs, selected triples) are written by the real writers and read back under every layout of a grid: FASTA line wrap x {as written, CRLF, re-wrapped} x BufReader capacity {1,2,3,7,8192} x read() answer schedule (uniform <=1,<=2,<=3, cycles, unbounded; for single records every schedule with one short leading answer and every schedule with two) x API (records(), read() into a reused Record, EitherRecords); the sniffer additionally against the plain parser on streams whose first reads fail with ErrorKind::Interrupted, and the seekable sniffer on streams positioned behind a preamble; every truncation offset of the written bytes; every string of up to 5/6 tokens over {> @ + LF CR A space 0xFF U+00A0 U+2003} (the last two as multi-byte UTF-8). Each (list, layout) / (list, cut) / byte string is one case. Non-trivial: a read() answer or the buffer capacity splits a line, or the layout is CRLF/re-wrapped, or a non-default API; cuts: the cut falls inside a line; arbitrary: contains a line break and a record marker. Appended units: (ctor) every list x format x BufReader/BufWriter capacity {1,2,3,7,64}: Reader::with_capacity and Reader::from_bufread against Reader::new, Writer::with_capacity and Writer::from_bufwriter against Writer::new (non-trivial: capacity < file length); (record-api) every record of the alphabet plus 144 records outside the valid class: check() against the documented rule, Display against the writer, SequenceRead against the accessors, fastx kind/accessors/to_fasta/into/to_fastq(default_qual in I ! ~); EitherRecords and get_kind* on empty input; Kind Display and error conversions; (files) a spread of lists through the path constructors in a scratch directory against the in-memory route, missing paths, an empty file; (write-fault) a spread of lists x format/wrap x BufWriter capacity {1,2,3,7,64} x {with_capacity, from_bufwriter} x sink accepting all / one byte per call x every index k of the failing write() call up to the call count of the fault-free run x {fails once, fails from then on}; (read-fault) the same lists x capacity {1,3,7,8192} x answers {1,3,unbounded} x API x every index k of the failing read() call x {once, from then on}. Non-trivial there: the injected fault was reached."
     }
     fn assumptions(&self) -> Vec<&'static str> {
         vec![
             "valid record = id without white space, optional description without line breaks, non-empty sequence of ASCII letters, qualities of equal length (first symbol ranges over I @ + > !)",
             "a reader that issues more than 64+16*len read() calls on len bytes is declared non-terminating; an iterator yielding more than len+2 items likewise",
             "descriptions that are empty or end in white space are in the alphabet; losing exactly that trailing white space is classified under its own finding key",
+            "injected errors have ErrorKind::Other (never Interrupted); a faulted run is driven the way a caller would: writing stops at the first Err, and of the reader's items only those up to and including the first Err are judged",
+            "after a write error the writer is dropped (std's BufWriter then tries to flush once more); the bytes the sink holds afterwards must still be a prefix of the fault-free output",
+            "path constructors are exercised in a per-process scratch directory under std::env::temp_dir()",
         ]
     }
     fn bounds(&self, tier: Tier) -> Value {
@@ -710,21 +1745,31 @@ impl Prop for C11Prop {
             "schedules": tier.pick("uniform family (6); all 1-deviation schedules for single records; all 2-deviation schedules for every 8th single record", "uniform family (6); all 1- and 2-deviation schedules for single records"),
             "cuts": "every offset of the FASTQ bytes and of the FASTA bytes (wrap None and 3)",
             "arbitrary_bytes": format!("all strings of <= {} tokens over 10 hostile tokens", tier.pick(5, 6)),
+            "constructor_capacities": CTOR_CAPS, "record_api_records": record_alphabet().len() + odd_records().len(),
+            "file_lists": few_lists(tier.pick(77, 13), tier.pick(601, 211)).len(), "fault_lists": fault_lists(tier).len(),
+            "write_faults": "every failing write() call index of the fault-free run, once / from then on, sink chunk unbounded / 1, BufWriter capacity 1,2,3,7,64, both constructors",
+            "read_faults": "every failing read() call index of the fault-free run, once / from then on, BufReader capacity 1,3,7,8192, answers 1,3,unbounded, records()/read()/EitherRecords",
         })
     }
     fn units(&self, _tier: Tier) -> Vec<String> {
         let mut v: Vec<String> = (0..LIST_SHARDS).map(|i| format!("lists-{}", i)).collect();
         v.extend((0..ARB_SHARDS).map(|i| format!("arbitrary-{}", i)));
+        v.extend(ext_unit_names());
         v
     }
     fn run_unit(&self, tier: Tier, unit: usize, ctx: &mut Ctx) {
         if unit < LIST_SHARDS {
             list_unit(tier, unit, ctx);
-        } else {
+        } else if unit < LIST_SHARDS + ARB_SHARDS {
             arbitrary_unit(tier, unit - LIST_SHARDS, ctx);
+        } else {
+            run_ext_unit(tier, unit - LIST_SHARDS - ARB_SHARDS, ctx);
         }
     }
     fn replay(&self, case: &Value, ctx: &mut Ctx) {
+        if replay_ext(case, ctx) {
+            return;
+        }
         match case["kind"].as_str().unwrap_or("") {
             "roundtrip" => {
                 let list: Vec<Rec> = serde_json::from_value(case["records"].clone()).unwrap();
